@@ -21,6 +21,13 @@ Definition dp_of (f q rho pi depth d : Q) : Q := dp_friction f rho (velocity q r
 (* laminar pressure loss of one time step *)
 Definition dp_laminar (q rho mu pi depth d : Q) : Q := dp_of (f_laminar (reynolds q mu pi d)) q rho pi depth d.
 
+(* friction factor of one time step as a function of the diameter, for a given turbulent correlation
+   [colebrook relroughness Re] (the code's six Colebrook iterations: log10, sqrt, fractional powers - library):
+   relroughness = 1E-4 / welldiam *)
+Definition well_f (colebrook : Q -> Q -> Q) (q mu pi d : Q) : Q :=
+  let re := reynolds q mu pi d in
+  if Qltb re 2300 then f_laminar re else colebrook ((1 # 10000) / d) re.
+
 Definition averageQ (l : list Q) : Q := sumQ l / natQ (length l).
 (* regime decision of the code: np.average(Rewater) < 2300 *)
 Definition laminar_regime (q pi d : Q) (mu : list Q) : bool :=
@@ -64,5 +71,12 @@ Definition run_friction (a : list Q) : res :=
       let '(mu, fturb) := take_drop n r1 in
       let f := friction_series q pi d mu fturb in
       Vals (boolQ (laminar_regime q pi d mu) :: map (fun r => velocity q r pi d) rho ++ f ++ dp_series q pi depth d f rho)
+  | _ => Err E_ARGS
+  end.
+
+(* injection well: [n; nprod; ninj; q; wl; pi; depth; d] ++ rho(n) ++ mu(n) ++ fturb(n), same outputs *)
+Definition run_friction_inj (a : list Q) : res :=
+  match a with
+  | n :: nprod :: ninj :: q :: wl :: rest => run_friction (n :: inj_flow nprod ninj q wl :: rest)
   | _ => Err E_ARGS
   end.
